@@ -142,6 +142,9 @@ class Frame:
         if isinstance(raw, property):
             raw = raw.fset if f.fn.ref.role == "setter" else raw.fget
         raw = getattr(raw, "__func__", raw)
+        # (WidgetMeta wraps render / rows with functools.wraps'd cache wrappers: the method whose AST runs is the wrapped one)
+        while name not in getattr(getattr(raw, "__code__", None), "co_freevars", ()) and hasattr(raw, "__wrapped__"):
+            raw = raw.__wrapped__
         code, cells = getattr(raw, "__code__", None), getattr(raw, "__closure__", None)
         if code is None or not cells or name not in code.co_freevars:
             return None
@@ -1473,6 +1476,10 @@ class Interp:
                 raise PyRaise(SExc(AttributeError, (name,)))
             if ref is None:
                 return Method(("super", obj.obj, cls), name)
+            if ref.role == "getter":
+                # super().name where `name` is a property of the next class in the MRO: CPython runs its getter on the
+                # object (descriptor protocol), e.g. the delegating `rows` / `pack` properties of WidgetWrap's mixin
+                return self.call_fnval(st, FnVal(ref, None, obj.obj, cls), [], {})
             return self.decorate_method(st, FnVal(ref, None, None, cls), obj.obj)
         if isinstance(obj, SObj):
             return self.obj_getattr(st, obj, name)
